@@ -31,6 +31,15 @@ def harness_module(key, kind):
     elif kind == "square":
         def mf(delta, E, contact_point=0, baseline=0):
             return delta * delta * E + baseline
+    elif kind == "table":
+        # a user model that keeps its results (lookup table / memoised evaluation) and hands out the kept array
+        store = {}
+
+        def mf(delta, E, contact_point=0, baseline=0):
+            k_ = (delta.tobytes(), float(E), float(contact_point), float(baseline))
+            if k_ not in store:
+                store[k_] = delta * delta * E + baseline
+            return store[k_]
     else:
         def mf(delta, E, contact_point=0, baseline=0):
             return delta * np.arange(delta.size) * E + baseline
@@ -243,6 +252,36 @@ def run(ctx):
             for meta, a, b_ in zip(metas, expect, out):
                 if a != b_:
                     ctx.disagree(meta, a[:300], b_[:300], "wrapper output")
+        # a user model that hands out an array it keeps: the library must not write into it
+        tab = harness_module("verif_c13_table", "table")
+        mods["table"] = tab
+        with warnings.catch_warnings():
+            warnings.simplefilter("ignore")
+            mdt = model.register_model(tab)
+        for i in range(20 if ctx.tier == "quick" else 400):
+            kind, d = gen_delta(rng)
+            if len(d) < 2:
+                continue
+            p = mdt.get_parameter_defaults()
+            p["E"].set(value=rng.choice([1.0, 2.5]))
+            force = np.array([rng.randint(-8, 8) / 4 for _ in d], dtype=float)
+            wd = rng.choice([0, 0.5, 2.0])
+            f1 = np.array(mdt.model(p, d.copy()), copy=True)
+            r1 = np.array(mdt.residual(p, d.copy(), force.copy(), wd), copy=True)
+            f2 = np.array(mdt.model(p, d.copy()), copy=True)
+            r2 = np.array(mdt.residual(p, d.copy(), force.copy(), wd), copy=True)
+            w = np.minimum(np.abs(d - p["contact_point"].value) / wd, 1) if wd else 1.0
+            meta = {"g": "table (model function returns an array it keeps)", "orientation": kind,
+                    "delta": [float(v) for v in d[:12]], "n": len(d), "weight_cp": wd}
+            ctx.case(meta, nontrivial=json.dumps(["table", list(map(float, d)), wd]),
+                     bucket=["stream=retained-result", "orientation=" + kind])
+            if not np.array_equal(f1, f2):
+                ctx.violation("model-result-overwritten", "after residual() an equal model() call returns different "
+                              "values: the library wrote into the array returned by the user's model function",
+                              {"input": meta})
+            elif not (np.allclose(r1, (force - f1) * w, rtol=1e-12, atol=1e-12) and np.array_equal(r1, r2)):
+                ctx.violation("default-residual:table", "default residual is not (data - model) x contact-point "
+                              "weights on the second call", {"input": meta})
         # contract oracle on everything registered (shipped, plug-ins)
         for key in sorted(model.models_available):
             if key.startswith("verif_c13_"):
